@@ -189,8 +189,9 @@ def run(ctx, rep):
         muts = {n: mutations_at(g, n) for n in g.nodes if n in live}
         muts = {n: m for n, m in muts.items() if m}
 
-        batch_next = {n for n in P.calls(r"iter::Iterator>?::next$")
-                      if strip_ids(event_args(g, n)[0]) in (("arg", 2), ("arg", 3))}
+        # a batch operation is judged per element, whether the elements are visited by a `for` loop or by an adaptor with a closure
+        batch_next = element_boundaries(g, P, lambda e: e in (("arg", 2), ("arg", 3)) or
+                                        contains(e, lambda x: x in (("arg", 2), ("arg", 3))) and not contains(e, lambda x: x == ("arg", 1)))
 
         refusal_set = set(refusals)
 
